@@ -31,7 +31,7 @@ driver.bootstrap()
 from sim import gen_args, gen_docs, snapshot  # noqa: E402
 from sim.gen_docs import S, M, L  # noqa: E402
 from sim.util import QuietLog, strict_load, strict_load_all  # noqa: E402
-from sim.world import READ_KINDS  # noqa: E402
+from sim.world import READ_KINDS, fs_visible  # noqa: E402
 from ruamel.yaml.comments import CommentedSet  # noqa: E402
 from yamlpath import YAMLPath  # noqa: E402
 from yamlpath.common import Parsers  # noqa: E402
@@ -410,12 +410,21 @@ def mutate_doc(rng, doc):
                     edits.append("list-becomes-empty-hash")
                 node["i"] = []
                 node.pop("a", None)
-        else:
+        elif roll < 0.93:
             lists = [(s, n) for s, n in conts if n["t"] == "l" and n["i"]]
             if lists:
                 _s, node = rng.choice(lists)
                 node["i"] = []
                 edits.append("list-emptied")
+        else:
+            lists = [(s, n) for s, n in conts
+                     if n["t"] == "l" and len(n["i"]) > 1
+                     and not any(x["t"] == "*" or x.get("a")
+                                 for x in n["i"])]
+            if lists:
+                _s, node = rng.choice(lists)
+                node["i"] = node["i"][1:] + node["i"][:1]
+                edits.append("list-rotated")
     del resolve
     return doc, edits
 
@@ -444,9 +453,25 @@ def gen_diff(rng):
         opts.append("-o")
     if rng.random() < 0.2:
         opts += ["-t", rng.choice(["dot", "fslash"])]
+    files = {}
+    roll = rng.random()
+    if roll < 0.15:
+        opts += ["-A", rng.choice(["position", "value"])]
+    elif roll < 0.3:
+        opts += ["-O", rng.choice(["deep", "dpos", "key", "position",
+                                   "value"])]
+    elif roll < 0.5:
+        lines = ["[defaults]"]
+        if rng.random() < 0.7:
+            lines.append("arrays = " + rng.choice(["value", "position"]))
+        if rng.random() < 0.6:
+            lines.append("aoh = " + rng.choice(["deep", "dpos", "key",
+                                                "value", "position"]))
+        files[W + "diff.ini"] = "\n".join(lines) + "\n"
+        opts += ["-c", W + "diff.ini"]
     return {"tool": "yaml-diff", "opts": opts, "lhs": ltext, "rhs": rtext,
             "lname": W + "lhs" + lsuf, "rname": W + "rhs" + rsuf,
-            "edits": edits}
+            "edits": edits, "files": files}
 
 
 def expect_diff(scn):
@@ -456,7 +481,11 @@ def expect_diff(scn):
         return None
     equal = orderless(snapshot.typed_merged(ldoc)) == \
         orderless(snapshot.typed_merged(rdoc))
-    args = ns(config=None, arrays=None, aoh=None, same="-s" in scn["opts"],
+    def opt(flag):
+        return scn["opts"][scn["opts"].index(flag) + 1] \
+            if flag in scn["opts"] else None
+    args = ns(config=opt("-c"), arrays=opt("-A"), aoh=opt("-O"),
+              same="-s" in scn["opts"],
               onlysame="-o" in scn["opts"], quiet="-q" in scn["opts"],
               verbose=False, debug=False, pathsep=PathSeparators.DOT,
               ignore_eyaml_values=True, eyaml="eyaml", publickey=None,
@@ -465,9 +494,15 @@ def expect_diff(scn):
         args.pathsep = PathSeparators.from_str(
             scn["opts"][scn["opts"].index("-t") + 1])
     log = QuietLog()
-    diff = Differ(DifferConfig(log, args), log, ldoc,
-                  ignore_eyaml_values=True)
-    diff.compare_to(rdoc)
+    try:
+        with fs_visible(scn.get("files") or {}):
+            diff = Differ(DifferConfig(log, args), log, ldoc,
+                          ignore_eyaml_values=True)
+            diff.compare_to(rdoc)
+    except Exception as ex:  # pylint: disable=broad-except
+        # the library itself fails on this pair under these modes (C06's
+        # business); the tool must at least not claim "no difference"
+        return {"library_raised": type(ex).__name__, "equal": equal}
     chunks = []
     changed = False
     for entry in diff.get_report():
@@ -480,21 +515,41 @@ def expect_diff(scn):
             entry.pathsep = args.pathsep
             entry.verbose = False
             chunks.append(str(entry))
+    ini = (scn.get("files") or {}).get(opt("-c") or "", "")
+    keyed = (opt("-O") in ("key", "deep") or "aoh = key" in ini
+             or "aoh = deep" in ini)
     return {"equal": equal, "library_changed": changed,
+            "default_modes": not (opt("-c") or opt("-A") or opt("-O")),
+            # key/deep modes match Array-of-Hashes records by an identity
+            # key; records lacking it are unmatchable BY DESIGN and are
+            # reported as removed and re-added even in identical documents
+            "identity_keyed": keyed,
             "stdout": "".join(c + "\n" for c in "\n\n".join(chunks).split(
                 "\n")) if chunks else ""}
 
 
 def judge_diff(scn, exp, res):
     out = []
+    if "library_raised" in exp:
+        if res.exit == 0 and not exp["equal"]:
+            out.append("diff:exit-0-although-library-raised-"
+                       + exp["library_raised"])
+        return out
     want = 0 if exp["equal"] else 1
-    if res.exit != want:
+    # plain data equality decides the status under the default comparison
+    # modes; "value"/"key"/"deep" modes deliberately ignore some differences
+    if exp["default_modes"] and res.exit != want:
         out.append("diff:exit-%s-but-documents-are-%s" % (
             res.exit, "data-equal" if exp["equal"] else "different"))
+    if exp["equal"] and res.exit == 1 and not exp["identity_keyed"] \
+            and "diff:exit-1-but-documents-are-data-equal" not in out:
+        out.append("diff:exit-1-but-documents-are-data-equal")
     lib = 1 if exp["library_changed"] else 0
     if res.exit != lib:
         out.append("diff:exit-status-disagrees-with-library-report")
-    if res.stdout != exp["stdout"] and res.exit in (0, 1):
+    shown = "".join(line + "\n" for line in res.stdout.split("\n")[:-1]
+                    if not line.startswith("WARNING:  "))
+    if shown != exp["stdout"] and res.exit in (0, 1):
         out.append("diff:printed-entries-differ-from-library-report")
     return out
 
@@ -731,6 +786,23 @@ def gen_merge16(rng):
         opts += ["-D", rng.choice(["auto", "yaml", "json"])]
     if rng.random() < 0.15:
         opts += ["-J", rng.choice(["0", "2"])]
+    if rng.random() < 0.25:
+        lines = ["[defaults]"]
+        for key, vals in (("arrays", ["all", "left", "right", "unique"]),
+                          ("hashes", ["deep", "left", "right"]),
+                          ("aoh", ["all", "deep", "left", "right",
+                                   "unique"])):
+            flag = {"arrays": "-A", "hashes": "-H", "aoh": "-O"}[key]
+            if rng.random() < 0.6:
+                lines.append("%s = %s" % (key, rng.choice(vals)))
+                if rng.random() < 0.6 and flag in opts:
+                    # leave the setting to the configuration file alone
+                    idx = opts.index(flag)
+                    del opts[idx:idx + 2]
+        if rng.random() < 0.3:
+            lines += ["[rules]", "/a = " + rng.choice(["left", "right"])]
+        files[W + "merge.ini"] = "\n".join(lines) + "\n"
+        opts += ["-c", W + "merge.ini"]
     outmode = rng.choice(["stdout", "stdout", "output", "overwrite"])
     scn = {"tool": "yaml-merge", "opts": opts, "names": names,
            "files": files, "outmode": outmode,
@@ -740,7 +812,7 @@ def gen_merge16(rng):
         scn["opts"] = [o for i, o in enumerate(opts)
                        if o != "-M" and (i == 0 or opts[i - 1] != "-M")] \
             + ["-M", "merge_across"]
-        files = {}
+        files = {k: v for k, v in files.items() if k.endswith(".ini")}
         names = []
         for idx in range(2):
             parts = []
@@ -762,7 +834,7 @@ def gen_merge16(rng):
 def merge_args(opts, output=None):
     def opt(flag):
         return opts[opts.index(flag) + 1] if flag in opts else None
-    return ns(config=None, anchors=None, arrays=opt("-A"), sets=None,
+    return ns(config=opt("-c"), anchors=None, arrays=opt("-A"), sets=None,
               hashes=opt("-H"), aoh=opt("-O"), mergeat="/",
               document_format=opt("-D") or "auto",
               multi_doc_mode=opt("-M") or "condense_all",
@@ -775,7 +847,9 @@ def expect_merge(scn, texts, output):
     """Fold the inputs with the library (single-document inputs)."""
     log = QuietLog()
     args = merge_args(scn["opts"], output)
-    config = MergerConfig(log, args)
+    with fs_visible({k: v for k, v in scn["files"].items()
+                     if k.endswith(".ini")}):
+        config = MergerConfig(log, args)
     yaml = Parsers.get_yaml_editor()
     if scn.get("multidoc"):
         streams = []
@@ -1167,18 +1241,20 @@ def build_runs(rng, scn, knobs):
             for chan, rcp in var.items():
                 runs[chan] = (rcp, {})
     elif tool == "yaml-diff":
-        files = {scn["lname"]: scn["lhs"], scn["rname"]: scn["rhs"]}
+        extra = dict(scn.get("files") or {})
+        files = dict(extra)
+        files.update({scn["lname"]: scn["lhs"], scn["rname"]: scn["rhs"]})
         runs["file"] = (base_recipe(tool, scn["opts"] + [scn["lname"],
                                                          scn["rname"]],
                                     files, knobs=knobs), {})
         runs["dash-lhs"] = (base_recipe(
             tool, scn["opts"] + ["-", scn["rname"]],
-            {scn["rname"]: scn["rhs"]}, stdin=scn["lhs"], tty=False,
-            chunks=chunks, knobs=knobs), {})
+            dict(extra, **{scn["rname"]: scn["rhs"]}), stdin=scn["lhs"],
+            tty=False, chunks=chunks, knobs=knobs), {})
         runs["dash-rhs"] = (base_recipe(
             tool, scn["opts"] + [scn["lname"], "-"],
-            {scn["lname"]: scn["lhs"]}, stdin=scn["rhs"], tty=False,
-            chunks=chunks, knobs=knobs), {})
+            dict(extra, **{scn["lname"]: scn["lhs"]}), stdin=scn["rhs"],
+            tty=False, chunks=chunks, knobs=knobs), {})
     elif tool in ("yaml-validate", "yaml-paths"):
         names = scn["names"]
         files = scn["files"]
@@ -1384,8 +1460,11 @@ def run_scenario(seed, shard, idx, tier):
             continue
         recipe, ctx = runs[chan]
         base = results[chan]
-        reads = [ev for ev in base.trace if ev[1] in READ_KINDS
-                 or ev[1] == "open-r"]
+        # faults on the documents being delivered; an unreadable INI file
+        # is silently ignored by configparser.read() by design
+        reads = [ev for ev in base.trace
+                 if (ev[1] in READ_KINDS or ev[1] == "open-r")
+                 and not ev[2].endswith(".ini")]
         if not reads:
             continue
         for _ in range(fault_runs):
